@@ -703,7 +703,7 @@ inst!(rank_n4_sse2, [props=C10+C03 xprops=C14 tier=thorough cfg=x86std t=3600 ro
     finder_nondet_ranker::<4, 22>(1, 0, 22));
 inst!(rank_n2_nosimd_rk, [props=C10+C03 xprops=C14 tier=quick cfg=generic t=1800 role=nondet-ranker-nosimd uw=@RK;@TWNEW;@TWOFF;with_ranker:6;oracle:6;find_prefilter.0:2;@MEMCHR], 3,
     finder_nondet_ranker::<2, 9>(0, 0, 9));
-inst!(rank_n2_nosimd_tw, [props=C10+C03 xprops=C14 tier=thorough cfg=generic t=7200 role=nondet-ranker-nosimd uw=@RK;@TW:2:17;with_ranker:6;oracle:6;find_prefilter.0:19;@MEMCHR], 3,
+inst!(rank_n2_nosimd_tw, [props=C10+C03 xprops=C14 tier=manual cfg=generic t=7200 role=nondet-ranker-nosimd uw=@RK;@TW:2:17;with_ranker:6;oracle:6;find_prefilter.0:19;@MEMCHR], 3,
     finder_nondet_ranker::<2, 17>(0, 16, 17));
 
 #[cfg(not(vcfg_x86none))]
